@@ -91,6 +91,28 @@ CLAIMED = {
          "(one add = one step) and observed on the real engine at enumerated points; which rows a LIMIT keeps under date ties is unspecified "
          "and compared as subset+count"),
    technique="Lean 4 proof (invariant / refinement to a list-of-rows spec by induction over the operation history) + differential correspondence on real SQLite"),
+ "C02": dict(
+   text=("Lean 4 theorems over a state-machine model of CallTracer (events as the tracer sees them: frame, code, RESUME argument, last-opcode "
+         "class, coroutine flag, get_type of entry locals / return arg): for every event history, what is recorded for a frame does not depend on "
+         "the events of any other frame however they are nested or interleaved (frame_locality); a frame that is called, suspends any number of "
+         "times and finishes is logged exactly once with the argument types of its call, the union of exactly its yielded types (none for a "
+         "coroutine's awaits), its return type iff it returned, leaving no per-call state (lifecycle_logged_once, interleaved_frame_logged_once); "
+         "rejected code is ignored. Tied to /repo by recording, from outside, the event stream the real tracer saw on generated programs and "
+         "replaying it through the model; the real log is also compared with the ground truth every generated function records about itself."),
+   ref="DESIGN.md section 4 C02",
+   note=("partial: the mapping from a Python program to its profile events and opcodes is CPython's (observed, monitored for well-formedness); "
+         "the function a code object resolves to is read from the tracer's cache and attribution is checked directly; async generators excluded"),
+   technique="Lean 4 proof (locality + lifecycle by induction over event histories) + differential correspondence by event-stream replay"),
+ "C18": dict(
+   text=("Lean 4 theorems over the same state machine with a draw stream: a zero draw stream (rate 1) behaves step for step as the unsampled "
+         "tracer (zero_draws_is_unsampled); an unsampled new call changes nothing but the consumed draw; for every history, draw stream and rate a "
+         "frame is either logged exactly as unsampled or not at all, and nothing is kept for it afterwards (frame_under_sampling) — a resumed "
+         "generator can never start a trace in mid-life. Tied to /repo by replaying recorded event streams and recorded random draws through the "
+         "model for rates {None,1,2,3,10,100}; logged traces are compared with ground truth and with the unsampled run of the same workload "
+         "(incl. asynchronous generators). 'About 1 in N' is a labelled statistical test on the recorded draws."),
+   ref="DESIGN.md section 4 C18",
+   note=("partial: uniformity of random.randrange is not modelled (binomial test only); CPython's event stream observed as in C02"),
+   technique="Lean 4 proof (simulation + per-frame case analysis over event histories and draw streams) + differential correspondence by event-stream replay"),
 }
 
 NOT_YET = "check not built yet (build in progress; see DESIGN.md section 10)"
